@@ -85,7 +85,29 @@ def run(ctx):
     # left behind by the first part must not be consumed by anything but the
     # first ATOM residue of the next chain
     from checks.recordloop import RecordLoop, check_terminus_latch
-    check_terminus_latch(ctx, 'C05.R5', RecordLoop(prog))
+    from checks.recordloop import check_raw_record_fields
+    rl5 = RecordLoop(prog)
+    check_terminus_latch(ctx, 'C05.R5', rl5)
+    check_raw_record_fields(ctx, 'C05.R5', rl5)
+
+    # ------------------------------------------------------------------ R6
+    # two parts placed in one file are told apart by their chain identifiers
+    # (residue numbers repeat): every decision that identifies a residue must
+    # include the chain, or one part's residues are taken for the other's
+    from checks import c06
+    labels6 = c06.Labels(prog)
+    n_id = 0
+    for fid6, fn6, mod6, node6, comps6, via6 in c06.identity_decisions(cg, reach, labels6):
+        n_id += 1
+        if 'chain' in comps6:
+            continue
+        ctx.ob('C05.R6', 'identity-without-chain:%s.%s:%s' % (fid6[0], fid6[1], canon(fn6).key(node6)[:100]),
+               False, 'residue identity decision in %s.%s is built from %s only: equally numbered '
+               'residues of different chains (e.g. of two structures in one file) are confused'
+               % (fid6[0], fid6[1], sorted(comps6)), mod6, node6)
+    ctx.ob('C05.R6', 'identity-decisions:examined', n_id >= 6,
+           '%d residue-identity decisions examined, all include the chain' % n_id,
+           prog.mod('conformation_container'), prog.mod('conformation_container').tree)
 
     # ------------------------------------------------------------------ R1
     n_loops = 0
